@@ -393,3 +393,25 @@ Definition redir_step (r : redir) (e : revent) : redir :=
 
 Definition redir0 : redir := mkRedir [] false false false [].
 Definition redir_run (es : list revent) : redir := fold_left redir_step es redir0.
+
+(* ------------------------------------------------------------------------------------------ *)
+(* Asynchronously written redirect targets (process.py _AsyncFileWriter, _StreamWriter, _PipeWriter):
+   received data and EOF are queued; a writer task (or the pipe transport) moves one queued item to the
+   target per turn; SSHProcess.wait_closed(), on which wait()/run()/communicate() rest, returns when the
+   channel is closed AND the cleanup tasks (queue.join() / the pipe's close event) are done. *)
+Record aredir := mkA { a_queue : list wtok; a_target : list wtok; a_chan_closed : bool }.
+Inductive aev := AvData (d : bytes) | AvEof | AvTurn | AvClose.
+
+Definition astep (a : aredir) (e : aev) : aredir :=
+  match e with
+  | AvData d => if a_chan_closed a then a else mkA (a_queue a ++ [TData d]) (a_target a) false
+  | AvEof => if a_chan_closed a then a else mkA (a_queue a ++ [TEof]) (a_target a) false
+  | AvTurn => match a_queue a with
+              | x :: q => mkA q (a_target a ++ [x]) (a_chan_closed a)
+              | [] => a
+              end
+  | AvClose => mkA (a_queue a) (a_target a) true
+  end.
+
+Definition arun (es : list aev) : aredir := fold_left astep es (mkA [] [] false).
+Definition await_done (a : aredir) : bool := a_chan_closed a && is_nil (a_queue a).
